@@ -189,9 +189,14 @@ class Network:
         given host and service, based on current set of compromised hosts on
         network.
         """
+        # traffic from the internet (the attacker's initial position) must be
+        # allowed by the firewall rule from the internet into a public subnet
+        if self.subnet_public(host_addr[0]) and \
+           service in self.firewall[(INTERNET, host_addr[0])]:
+            return True
+        # any other traffic must come from a host the attacker controls
         for src_addr in self.address_space:
-            if not state.host_compromised(src_addr) and \
-               not self.subnet_public(src_addr[0]):
+            if not state.host_compromised(src_addr):
                 continue
             if not self.subnet_traffic_permitted(
                     src_addr[0], host_addr[0], service
